@@ -44,6 +44,7 @@ type AsyncScn struct {
 	Overflow   bool      `json:"overflow,omitempty"`     // C12: Block policy with more writes than the buffer holds
 	Restart    bool      `json:"restart,omitempty"`      // direct AsyncLogger: a first life (Start, a few items, Stop) precedes the workload on the SAME object
 	SleepMs    int       `json:"sleep_ms,omitempty"`     // the recording appender takes this much simulated time per item
+	HandleOnly bool      `json:"handle_only,omitempty"`  // Refresh-built: the logger's tag list matches no registered tag; it is reached through its named handle only (raw writes)
 	WriteFailAt int      `json:"write_fail_at,omitempty"` // C12 (File kind): the k-th write to the file is refused by the OS once (ENOSPC); everything else must still arrive
 	HName      string    `json:"handle_name,omitempty"`  // C12 (Refresh-built): the logger's name, if not "alog"
 	LongRun    int       `json:"long_run,omitempty"`     // C06: two producers submit this many items against a held worker
@@ -162,6 +163,9 @@ func buildAsync(x *Exec, s *AsyncScn) *asyncSys {
 		var refs []*log.AppenderRef
 		for i := range s.Refs {
 			a := &RecAppender{AppenderBase: log.AppenderBase{Name: fmt.Sprintf("rec%d", i)}}
+			if s.Knobs.MapSeed%4 >= 2 {
+				a = &RecAppender{RecKey: fmt.Sprintf("rec%d", i)} // a logger assembled from structs: nobody named the appenders
+			}
 			a.Start()
 			ref := &log.AppenderRef{Appender: a, Ref: a.Name, Level: levelRangeOf(sys.refRanges[i])}
 			if s.Knobs.MapSeed%2 == 1 {
@@ -213,6 +217,9 @@ func buildAsync(x *Exec, s *AsyncScn) *asyncSys {
 	case "refresh":
 		spec := &SysSpec{Style: s.Style, Props: map[string]string{"enableCaller": "false"}}
 		lg := LogSpec{Name: "alog", Type: s.Kind, Tags: []string{"_app_*"}, Level: s.Level, Layout: s.LLayout}
+		if s.HandleOnly {
+			lg.Tags = []string{"legacy_*"} // no tag of that family is registered
+		}
 		if s.Kind == "AsyncLogger" {
 			lg.BufferSize, lg.Policy = s.BufferSize, s.Policy
 			if s.DefaultSize {
